@@ -30,6 +30,9 @@ var Texts = map[string]string{
   grouping g { container gc { typedef inner { type tt; } leaf gl { type inner; } } }
   container c { uses g; leaf l { type tt; } choice ch { leaf sh { type int8 { range "1..5"; } } } }
   rpc r { input { leaf i { type tt; } } }
+  leaf mm { type string { length "1..max"; } }
+  leaf mn { type int8 { range "min..10"; } }
+  leaf mu { type uint64 { range "5..max"; } }
 }`,
 	"t2b": `module t2 { namespace "urn:t2"; prefix t2;
   container c { leaf other { type string; } }
